@@ -90,6 +90,7 @@ const (
 	OFDiv
 	OFNeg
 	OFAbs
+	OFFloor // fp.roundToIntegral RTN
 	OFLt
 	OFLe
 	OFEq
@@ -769,6 +770,12 @@ func FAbs(a *Term) *Term {
 	}
 	return mk(OFAbs, FP64, 0, "", a)
 }
+func FFloor(a *Term) *Term {
+	if a.IsConst() {
+		return FConst(math.Floor(a.Float()))
+	}
+	return mk(OFFloor, FP64, 0, "", a)
+}
 func FIsNaN(a *Term) *Term {
 	if a.IsConst() {
 		return BoolC(math.IsNaN(a.Float()))
@@ -960,7 +967,7 @@ var opNames = map[Op]string{
 	OAdd: "bvadd", OSub: "bvsub", OMul: "bvmul", OUDiv: "bvudiv", OURem: "bvurem", OSDiv: "bvsdiv", OSRem: "bvsrem",
 	OBAnd: "bvand", OBOr: "bvor", OBXor: "bvxor", OBNot: "bvnot", ONeg: "bvneg", OShl: "bvshl", OLShr: "bvlshr", OAShr: "bvashr",
 	OUlt: "bvult", OUle: "bvule", OSlt: "bvslt", OSle: "bvsle", OConcat: "concat",
-	OFAdd: "fp.add RNE", OFSub: "fp.sub RNE", OFMul: "fp.mul RNE", OFDiv: "fp.div RNE", OFNeg: "fp.neg", OFAbs: "fp.abs",
+	OFAdd: "fp.add RNE", OFSub: "fp.sub RNE", OFMul: "fp.mul RNE", OFDiv: "fp.div RNE", OFNeg: "fp.neg", OFAbs: "fp.abs", OFFloor: "fp.roundToIntegral RTN",
 	OFLt: "fp.lt", OFLe: "fp.leq", OFEq: "fp.eq", OFIsNaN: "fp.isNaN",
 	OFFromSBV: "(_ to_fp 11 53) RNE", OFFromUBV: "(_ to_fp_unsigned 11 53) RNE", OFFromBits: "(_ to_fp 11 53)",
 	OFToSBVRaw: "(_ fp.to_sbv 64) RTZ",
@@ -1141,6 +1148,8 @@ func Eval(t *Term, env map[string]uint64, memo map[int]uint64) uint64 {
 			c = FNeg(args[0])
 		case OFAbs:
 			c = FAbs(args[0])
+		case OFFloor:
+			c = FFloor(args[0])
 		case OFIsNaN:
 			c = FIsNaN(args[0])
 		case OFFromSBV:
